@@ -88,7 +88,74 @@ def gen_mixed_pf2(rng, pattern):
     return w, [A, B, Cm], Ps
 
 
-PRED, ENTRY = {}, {}
+# ----------------------------------------------------------------------------- TuckerTensor object methods
+def pred_tucker_obj_normalize(inp):
+    """obj.normalize() is in place: returns None, obj represents the same tensor with unit-norm factor columns, its shape / rank
+    attributes describe what it holds, the arrays the caller passed in are untouched"""
+    from tensorly.tucker_tensor import TuckerTensor
+    H = _H()
+    core, fs = inp["core"], inp["fs"]
+    c0, f0 = np.array(core, copy=True), H.cps(fs)
+    st, obj = H.call(lambda: TuckerTensor((c0, f0)))
+    if st != "ok":
+        return f"TuckerTensor raised: {obj}"
+    st, ret = H.call(obj.normalize)
+    if st != "ok":
+        return f"TuckerTensor.normalize raised: {ret}"
+    if ret is not None:
+        return "TuckerTensor.normalize is documented in place but returned a value"
+    c2, fs2 = np.asarray(obj.core), [np.asarray(f) for f in obj.factors]
+    before = H.dense_tucker(core, fs)
+    if not H.close(H.dense_tucker(c2, fs2), before):
+        return "TuckerTensor.normalize changed the represented tensor"
+    for k, f in enumerate(fs2):
+        n = np.sqrt(np.sum(f * f, axis=0))
+        for r in range(f.shape[1]):
+            if np.any(fs[k][:, r]) and abs(n[r] - 1) > 1e-9:
+                return f"column {r} of factor {k} has norm {n[r]!r} after obj.normalize()"
+    if tuple(obj.shape) != before.shape or tuple(obj.rank) != tuple(core.shape):
+        return f"after obj.normalize() the object advertises shape {tuple(obj.shape)}, rank {tuple(obj.rank)} but holds shape {before.shape}, rank {tuple(core.shape)}"
+    if not (H.same_arrays(f0, fs) and H.same_arrays([c0], [core])):
+        return "TuckerTensor.normalize overwrote an array the caller passed in"
+    return None
+
+
+def pred_tucker_obj_mode_dot(inp):
+    """obj.mode_dot(x, mode, keep_dim, copy): the result represents the mode product and advertises its shape; no array of the caller is
+    overwritten; copy=True: the operand object still represents its tensor and its attributes are right"""
+    from tensorly.tucker_tensor import TuckerTensor
+    H = _H()
+    core, fs, x = inp["core"], inp["fs"], inp["x"]
+    c0, arrs0 = np.array(core, copy=True), H.cps(fs)
+    f0 = list(arrs0)                                   # the list handed to the object (copy=False may pop / replace its entries)
+    st, obj = H.call(lambda: TuckerTensor((c0, f0)))
+    if st != "ok":
+        return f"TuckerTensor raised: {obj}"
+    before = H.dense_tucker(core, fs)
+    st, r = H.call(lambda: obj.mode_dot(np.array(x, copy=True), inp["mode"], keep_dim=inp["keep_dim"], copy=inp["copy"]))
+    if st != "ok":
+        return f"TuckerTensor.mode_dot raised: {r}"
+    exp = H.dense_mode_dot(before, x, inp["mode"], inp["keep_dim"])
+    if not H.close(H.dense_tucker(np.asarray(r.core), [np.asarray(f) for f in r.factors]), exp, exact=H.is_int(before, x)):
+        return "TuckerTensor.mode_dot does not represent the mode product of the dense tensor"
+    if tuple(r.shape) != exp.shape:
+        return f"TuckerTensor.mode_dot: advertised shape {tuple(r.shape)} but represents {exp.shape}"
+    if not (H.same_arrays(arrs0, fs) and H.same_arrays([c0], [core])):
+        return "TuckerTensor.mode_dot overwrote an array the caller passed in"
+    if inp["copy"]:
+        try:
+            still = H.close(H.dense_tucker(np.asarray(obj.core), [np.asarray(f) for f in obj.factors]), before, exact=H.is_int(before))
+        except Exception:  # noqa   (core and factor list no longer fit together)
+            still = False
+        if not still:
+            return "TuckerTensor.mode_dot(copy=True): the operand object no longer represents its tensor"
+        if tuple(obj.shape) != before.shape:
+            return "TuckerTensor.mode_dot(copy=True): the operand's shape attribute changed"
+    return None
+
+
+PRED = {"tucker_obj_normalize": pred_tucker_obj_normalize, "tucker_obj_mode_dot": pred_tucker_obj_mode_dot}
+ENTRY = {"tucker_obj_normalize": "tensorly.tucker_tensor.TuckerTensor.normalize", "tucker_obj_mode_dot": "tensorly.tucker_tensor.TuckerTensor.mode_dot"}
 
 
 # ----------------------------------------------------------------------------- the cases
@@ -207,3 +274,80 @@ def run_round7(chk, rng, judge, mult, emit):
             emit(lambda: f"ZDecomp {zrow(w)} {zmat(A)} {zmat(B)} {zmat(Cm)} {zmats(Ps)} {H.zopt_mats(Ls)} {lit}", ("svd_decompress", "none-pattern", sh(Ps), nones))
             judge("svd_decompress_parafac2_tensor", {"w": w, "fs": [A, B, Cm], "Ps": Ps, "Ls": Ls}, ("none-pattern", sh(Ps), nones))
             chk.hist("none_pattern", "".join("N" if n else "L" for n in nones))
+
+    # --- (D) TuckerTensor objects: obj.mode_dot (copy on / off: what the OPERAND object names afterwards), obj.normalize (in place), tucker_copy
+    from tensorly.tucker_tensor import TuckerTensor, _validate_tucker_tensor
+    ztens, qtens = H.ztens, H.qtens
+
+    def zobs(o):
+        """(shape attribute, rank attribute, (core, factors)) of a TuckerTensor object as a Gallina literal"""
+        shape, rank = [int(d) for d in o.shape], [int(d) for d in o.rank]
+        core, fs = np.asarray(o.core), [np.asarray(f) for f in o.factors]
+        if not H.integral(core, *fs) or any(f.ndim != 2 for f in fs) or any(d > 4000 for d in shape + rank):
+            raise ValueError("not printable")
+        return f"({C.nat_list(shape)}, {C.nat_list(rank)}, ({ztens(core)}, {zmats(fs)}))"
+
+    for it in range(12 * mult):
+        core, fs, feat = H.gen_tucker(rng)
+        N = len(fs)
+        # the caller's table of arrays; now and then one array serves two modes of equal size and rank
+        arrs, ls = [f for f in fs], list(range(N))
+        if it % 3 == 2:
+            twins = [(a, b) for a in range(N) for b in range(a + 1, N) if fs[a].shape == fs[b].shape]
+            if twins:
+                a, b = rng.choice(twins); ls[b] = a
+        facs = [arrs[l] for l in ls]
+        for mode in range(N):
+            kind = rng.choice(["mat", "vec", "veck"])
+            copy = (it + mode) % 2 == 0
+            x = H.gen_operand(rng, facs[mode].shape[0], "vec" if kind == "veck" else kind)
+            kd = kind == "veck"
+            held = [np.array(a, copy=True) for a in arrs]
+            obj_st, obj = call(lambda: TuckerTensor((core.copy(), [held[l] for l in ls])))
+            if obj_st != "ok":
+                continue
+            st, r = call(lambda: obj.mode_dot(x.copy(), mode, keep_dim=kd, copy=copy))
+            chk.hist("outcome", st); chk.hist("tucker_obj", f"mode_dot:{kind}:copy={copy}")
+            if st == "ok":
+                vst, _ = call(_validate_tucker_tensor, obj)
+                try:
+                    lit = f"(Ok ({zobs(r)}, {zobs(obj)}, {C.boolc(vst == 'ok')}))"
+                except Exception:  # noqa
+                    lit = "(Ok (([99999]%nat, (@nil nat), (mk (@nil nat) (@nil Z), (@nil (list (list Z))))), ([99999]%nat, (@nil nat), (mk (@nil nat) (@nil Z), (@nil (list (list Z))))), false))"
+            else:
+                lit = "Err"
+            xl = f"(OpMat {zmat(x)})" if x.ndim == 2 else f"(OpVec {zrow(x)})"
+            emit(lambda: f"ZTkObjDot {ztens(core)} {zmats(arrs)} {C.nat_list(ls)} {C.boolc(copy)} {xl} {mode}%nat {C.boolc(kd)} {lit}",
+                 ("TuckerTensor.mode_dot", sh(facs), tuple(ls), mode, kind, copy))
+            if not (kind == "vec" and N == 2):
+                judge("tucker_obj_mode_dot", {"core": core, "fs": facs, "x": x, "mode": mode, "keep_dim": kd, "copy": copy}, (sh(facs), tuple(ls), mode, kind, copy))
+        if it % 2 == 0:
+            held = [np.array(a, copy=True) for a in arrs]
+            st, obj = call(lambda: TuckerTensor((core.copy(), [held[l] for l in ls])))
+            if st == "ok":
+                st, cp_ = call(obj.tucker_copy)
+                chk.hist("tucker_obj", "tucker_copy:" + st)
+                if st == "ok":
+                    shares = any(np.shares_memory(np.asarray(a), np.asarray(b)) for a in [obj.core] + list(obj.factors) for b in [cp_.core] + list(cp_.factors))
+                    try:
+                        lit = f"(Ok {zobs(cp_)})"
+                    except Exception:  # noqa
+                        lit = "(Ok ([99999]%nat, (@nil nat), (mk (@nil nat) (@nil Z), (@nil (list (list Z))))))"
+                    emit(lambda: f"ZTkObjCopy {ztens(core)} {zmats(arrs)} {C.nat_list(ls)} {lit} {C.boolc(shares)}", ("TuckerTensor.tucker_copy", sh(facs), tuple(ls)))
+                    chk.count(key=("tucker_copy", sh(facs), tuple(ls)))
+                    if shares:
+                        chk.finding("tensorly.tucker_tensor.TuckerTensor.tucker_copy", {"core": core, "fs": facs}, "tucker_copy shares memory with the tensor it copies", "tucker_copy")
+    for it in range(10 * mult):
+        core, fs, feat = H.gen_tucker(rng, float_=True)
+        held_c, held = core.copy(), H.cps(fs)
+        st, obj = call(lambda: TuckerTensor((held_c, held)))
+        if st != "ok":
+            continue
+        st, ret = call(obj.normalize)
+        chk.hist("outcome", st); chk.hist("tucker_obj", "normalize:" + st)
+        if st == "ok" and all(np.asarray(f).ndim == 2 for f in obj.factors) and np.all(np.isfinite(np.asarray(obj.core))):
+            tape = [np.sqrt(np.sum(f * f, axis=0)) for f in fs]
+            tl_ = "[" + "; ".join(qrow(t) for t in tape) + "]"
+            obs = f"({C.nat_list([int(d) for d in obj.shape])}, {C.nat_list([int(d) for d in obj.rank])}, ({qtens(np.asarray(obj.core))}, {qmats([np.asarray(f) for f in obj.factors])}))"
+            emit(lambda: f"QTkObjNorm {tl_} {qtens(core)} {qmats(fs)} {C.nat_list(list(range(len(fs))))} (Ok {obs})", ("TuckerTensor.normalize", sh(fs), feat))
+        judge("tucker_obj_normalize", {"core": core, "fs": fs}, (sh(fs), feat))
